@@ -84,6 +84,27 @@ def run(prop, tier, replay=None):
         violations.append(("%s: %s at line %d (%s %s)"
                            % (sid, r.get("why") or "trace is not a behaviour of ActionWorker", r["line"],
                               r["event"]["e"], r["event"].get("id")), path))
+    extra = {}
+    if prop == "C15" and not replay:
+        # the clause about errors raised from the watcher's own callback (event-queue overflow, unreadable
+        # events): the real fs worker with a fake watcher whose callback fires bursts against a small queue
+        import fscheck
+        cb = fscheck.callback_scripts()
+        cb_by = {s["id"]: s for s in cb}
+        _, cacc, crej, cstats, ctotal = fscheck.run_scripts(cb, "C15cb")
+        for r in crej:
+            sid = r["script"] or ""
+            path = vlib.save_replay(prop, "%s_%s" % (sid, vlib.digest(r["event"])), dict(
+                kind="trace", property=prop, script=cb_by.get(sid), rejected_at_line=r["line"], event=r["event"],
+                why="the watcher callback's events / errors are not those of FsWorker.CallbackBurst",
+                trace=[json.loads(x) for x in r["lines"]]))
+            violations.append(("%s: watcher-callback burst: dropped events / errors differ from the specification at line %d (%s)"
+                               % (sid, r["line"], r["event"]["e"]), path))
+        acc += cacc
+        total += ctotal
+        stats["distinct"] += cstats["distinct"]
+        stats["generated"] += cstats["generated"]
+        extra = dict(callback_burst_scripts=ctotal, callback_burst_accepted=cacc)
     with open(tp) as f:
         scen = vlib.split_scenarios(f.readlines())
     distinct = {vlib.digest([s["events"], s["cap"], s["ecap"], s["throttle"], s.get("throttles"), s.get("jobs")])
@@ -96,7 +117,7 @@ def run(prop, tier, replay=None):
         traces_validated_against_impl=acc, evaluations=total, distinct_nontrivial=len(distinct),
         rule=RULE[prop], exhaustive=False, samples=samples,
         checker_cmd="tlc %s -config %s ; worker_driver ; tlc %s -config %s (per shard)" % (mc_module, mc_cfg, tr_module, cfg),
-        script_families=sorted({s.get("origin", "?") for s in scripts}))
+        script_families=sorted({s.get("origin", "?") for s in scripts}), **extra)
     assumptions = [
         "single-threaded tokio runtime with paused clock; with --cfg watchexec_verif the worker measures its window on tokio's clock (the same arithmetic as std's Instant)",
         "events are synthetic (send_event) with the filter verdict scripted per event; what the OS watchers report is not part of this check",
